@@ -20,7 +20,15 @@ class Name(str):
 
 
 class PdfString(str):
-    """A string object, decoded to text (literal: latin-1 bytes / hex: UTF-16-BE with BOM)."""
+    """A string object, decoded as a text string (7.9.2.2); `.raw` keeps the bytes."""
+    raw = b''
+
+
+def _pdf_string(raw):
+    text = text_of(raw)
+    out = PdfString(text if text is not None else raw.decode('latin-1'))
+    out.raw = raw
+    return out
 
 
 _WS = b' \t\r\n\x0c\x00'
@@ -76,13 +84,11 @@ class Parser:
         if c == b'(':
             return self.literal_string()
         if c == b'<':
-            end = data.index(b'>', self.pos)
-            hexa = re.sub(rb'\s', b'', data[self.pos + 1:end])
-            self.pos = end + 1
-            raw = bytes.fromhex(hexa.decode() + ('0' if len(hexa) % 2 else ''))
-            if raw.startswith(b'\xfe\xff'):
-                return PdfString(raw[2:].decode('utf-16-be', errors='surrogatepass'))
-            return PdfString(raw.decode('latin-1'))
+            got = read_hex(data, self.pos + 1)
+            if got is None:
+                raise ValueError(f'bad hexadecimal string at {self.pos}')
+            raw, self.pos = got
+            return _pdf_string(raw)
         m = re.compile(rb'(\d+)\s+(\d+)\s+R(?![^\s()<>\[\]{}/%])').match(data, self.pos)
         if m:
             self.pos = m.end()
@@ -98,77 +104,176 @@ class Parser:
         raise ValueError(f'cannot parse at {self.pos}: {data[self.pos:self.pos + 40]!r}')
 
     def literal_string(self):
-        data = self.data
-        assert data[self.pos:self.pos + 1] == b'('
-        self.pos += 1
-        depth, out = 1, bytearray()
-        while True:
-            c = data[self.pos:self.pos + 1]
-            if not c:
-                raise ValueError('unterminated string')
-            self.pos += 1
-            if c == b'\\':
-                n = data[self.pos:self.pos + 1]
-                self.pos += 1
-                table = {b'n': b'\n', b'r': b'\r', b't': b'\t', b'b': b'\b', b'f': b'\f',
-                         b'(': b'(', b')': b')', b'\\': b'\\'}
-                if n in table:
-                    out += table[n]
-                elif n.isdigit():
-                    digits = n
-                    while len(digits) < 3 and data[self.pos:self.pos + 1].isdigit():
-                        digits += data[self.pos:self.pos + 1]
-                        self.pos += 1
-                    out.append(int(digits, 8) & 0xff)
-                elif n in (b'\n', b'\r'):
-                    pass
-                else:
-                    out += n
-            elif c == b'(':
-                depth += 1
-                out += c
-            elif c == b')':
-                depth -= 1
-                if depth == 0:
-                    return PdfString(bytes(out).decode('latin-1'))
-                out += c
+        raw = read_literal(self.data, self.pos + 1)
+        if raw is None:
+            raise ValueError('unterminated string')
+        raw, self.pos = raw
+        return _pdf_string(raw)
+
+
+_DOC_ENCODING = {24: 0x2D8, 25: 0x2C7, 26: 0x2C6, 27: 0x2D9, 28: 0x2DD, 29: 0x2DB, 30: 0x2DA, 31: 0x2DC}
+
+
+def read_literal(data, pos):
+    """ISO 32000-1 7.3.4.2, from just after the opening parenthesis -> (bytes, position after `)`) | None.
+    (Same reader as `Wp.PdfStr.readLit`; the two are compared by the `pdf-strings` section.)"""
+    depth, out = 1, bytearray()
+    n = len(data)
+    while pos < n:
+        c = data[pos]
+        pos += 1
+        if c == 0x5C:                                   # backslash
+            if pos >= n:
+                return None
+            e = data[pos]
+            pos += 1
+            table = {0x6E: 10, 0x72: 13, 0x74: 9, 0x62: 8, 0x66: 12}
+            if e in table:
+                out.append(table[e])
+            elif e == 13:                               # line continuation
+                if pos < n and data[pos] == 10:
+                    pos += 1
+            elif e == 10:
+                pass
+            elif 0x30 <= e <= 0x37:
+                value, digits = e - 0x30, 1
+                while digits < 3 and pos < n and 0x30 <= data[pos] <= 0x37:
+                    value = value * 8 + data[pos] - 0x30
+                    pos += 1
+                    digits += 1
+                out.append(value % 256)
             else:
-                out += c
+                out.append(e)
+        elif c == 0x28:
+            depth += 1
+            out.append(c)
+        elif c == 0x29:
+            depth -= 1
+            if depth == 0:
+                return bytes(out), pos
+            out.append(c)
+        elif c == 13:                                   # an unescaped end-of-line reads as LF
+            out.append(10)
+            if pos < n and data[pos] == 10:
+                pos += 1
+        else:
+            out.append(c)
+    return None
 
 
-_OBJ = re.compile(rb'(?:^|\n)(\d+) (\d+) obj\n')
+def read_hex(data, pos):
+    """7.3.4.3, from just after `<` -> (bytes, position after `>`) | None."""
+    out, pending = bytearray(), None
+    n = len(data)
+    while pos < n:
+        c = data[pos]
+        pos += 1
+        if c == 0x3E:
+            if pending is not None:
+                out.append(pending * 16)
+            return bytes(out), pos
+        if c in (0, 9, 10, 12, 13, 32):
+            continue
+        if 0x30 <= c <= 0x39:
+            v = c - 0x30
+        elif 0x61 <= c <= 0x66:
+            v = c - 87
+        elif 0x41 <= c <= 0x46:
+            v = c - 55
+        else:
+            return None
+        if pending is None:
+            pending = v
+        else:
+            out.append(pending * 16 + v)
+            pending = None
+    return None
+
+
+def text_of(raw):
+    """7.9.2.2 text string -> str | None (not decodable by this reader)."""
+    if raw.startswith(b'\xfe\xff'):
+        body = raw[2:]
+        if len(body) % 2:
+            return None
+        try:
+            return body.decode('utf-16-be')
+        except UnicodeDecodeError:
+            return None
+    out = []
+    for b in raw:
+        if b in _DOC_ENCODING:
+            out.append(chr(_DOC_ENCODING[b]))
+        elif b < 127:
+            out.append(chr(b))
+        else:
+            return None
+    return ''.join(out)
+
+
+_OBJ = re.compile(rb'(\d+) (\d+) obj\n')
+
+
+class Objects(dict):
+    """Object number -> parsed value, parsed on first access from the offsets of the cross-reference table."""
+
+    def __init__(self, data, offsets):
+        super().__init__()
+        self.data, self.offsets = data, offsets
+        ordered = sorted(offsets.values()) + [len(data)]
+        self.end = {start: ordered[i + 1] for i, start in enumerate(ordered[:-1])}
+
+    def __missing__(self, number):
+        start = self.offsets[number]
+        m = _OBJ.match(self.data, start)
+        if not m or int(m.group(1)) != number:
+            raise ValueError(f'object {number} is not at offset {start}')
+        parser = Parser(self.data, m.end())
+        value = parser.parse()
+        parser.skip_ws()
+        if self.data.startswith(b'stream', parser.pos):
+            length = value.get('Length')
+            begin = parser.pos + len(b'stream')
+            if self.data[begin:begin + 2] == b'\r\n':
+                begin += 2
+            elif self.data[begin:begin + 1] == b'\n':
+                begin += 1
+            stop = begin + int(length) if isinstance(length, Fraction) else self.data.index(b'endstream', begin)
+            value = dict(value, __stream__=self.data[begin:stop])
+        self[number] = value
+        return value
+
+    def numbers(self):
+        return sorted(self.offsets)
+
+    def numbers_with(self, token):
+        """Objects whose serialised form (dictionary part) contains `token` — a cheap pre-filter."""
+        return [n for n in sorted(self.offsets)
+                if self.data.find(token, self.offsets[n], self.end[self.offsets[n]]) >= 0]
+
+    def items(self):
+        return [(n, self[n]) for n in self.numbers()]
+
+
+_XREF_ENTRY = re.compile(rb'(\d{10}) (\d{5}) ([nf])')
 
 
 def read(data):
-    """-> ({object number: parsed value}, trailer dict)."""
-    objects = {}
-    pos = 0
-    while True:
-        m = _OBJ.search(data, pos)
-        if not m:
-            break
-        number = int(m.group(1))
-        parser = Parser(data, m.end())
-        value = parser.parse()
-        parser.skip_ws()
-        if data.startswith(b'stream', parser.pos):
-            length = value.get('Length')
-            start = parser.pos + len(b'stream')
-            if data[start:start + 2] == b'\r\n':
-                start += 2
-            elif data[start:start + 1] == b'\n':
-                start += 1
-            if isinstance(length, Fraction):
-                pos = start + int(length)
-            else:
-                pos = data.index(b'endstream', start)
-            value = dict(value, __stream__=True)
-        else:
-            pos = parser.pos
-        objects[number] = value
-    t = data.rfind(b'trailer')
+    """-> (Objects, trailer dict), from the classic cross-reference table pydyf writes uncompressed."""
+    start = int(re.search(rb'startxref\s+(\d+)', data[-200:]).group(1))
+    header = re.compile(rb'xref\s+(\d+) (\d+)\s+').match(data, start)
+    first, count = int(header.group(1)), int(header.group(2))
+    offsets, pos = {}, header.end()
+    for i in range(count):
+        m = _XREF_ENTRY.match(data, pos)
+        if m.group(3) == b'n':
+            offsets[first + i] = int(m.group(1))
+        pos = m.end()
+        while data[pos:pos + 1] in (b' ', b'\r', b'\n'):
+            pos += 1
+    t = data.find(b'trailer', pos - 2)
     trailer = Parser(data, t + len(b'trailer')).parse() if t >= 0 else {}
-    return objects, trailer
+    return Objects(data, offsets), trailer
 
 
 def deref(objects, value):
